@@ -409,10 +409,14 @@ class Histogram1D(ObjectWithBinning, HistogramBase):
     ) -> None:
         # TODO: Unify with HistogramBase
         values_array, array_mask = extract_1d_array(values, dropna=dropna)
+        weights_array = extract_weights(weights, array_mask=array_mask)
+        if values_array.size == 0 and (
+            weights_array is None or weights_array.size == 0
+        ):
+            return  # Nothing to add (and perhaps no bins to add it to)
         if self._binning.is_adaptive():
             map = self._binning.force_bin_existence(values_array)
             self._reshape_data(self._binning.bin_count, map)
-        weights_array = extract_weights(weights, array_mask=array_mask)
         if weights_array is not None:
             self._coerce_dtype(weights_array.dtype)
         (frequencies, errors2, underflow, overflow, stats) = calculate_1d_frequencies(
